@@ -169,7 +169,7 @@ func (s *rsys) Ops() []string {
 
 // wait until node n's engine holds for key k a record at least as new as want
 func (s *rsys) await(n int, k string, want rec) error {
-	deadline := time.Now().Add(30 * time.Second)
+	deadline := time.Now().Add(180 * time.Second)
 	for {
 		m, err := s.read(n)
 		if err != nil {
@@ -179,7 +179,7 @@ func (s *rsys) await(n int, k string, want rec) error {
 			return nil
 		}
 		if time.Now().After(deadline) {
-			return fmt.Errorf("node %d did not apply %s %v within 30s", n, k, want)
+			return fmt.Errorf("node %d did not apply %s %v within 180s", n, k, want)
 		}
 		time.Sleep(time.Millisecond)
 		vk.Beat()
